@@ -61,11 +61,11 @@ PROPS = {
         explanation='Sha256Writer::write (verbatim, any inner sink): the hasher absorbs exactly the bytes the inner writer accepted (Ok(n): buf[..n]; Err: nothing) and into_digest is sha256 of them; PackageBuilder::build, Package::sign_with_timestamp, Package::clear_signatures: the SHA-256 stored in the signature header is hex(sha256(ser(header))) of the header that ends up in the package.',
     ),
     'C10': dict(
-        level='proof', verus=['c10_sign', 'c08_sigbuild', 'c02_verify_sig', 'c14_writers'],
+        level='proof', verus=['c10_sign', 'c08_sigbuild', 'c02_verify_sig', 'c14_writers', 'c10_keyids'],
         trusted_base=[A_TOOLS, A_EXTRACT, 'A-PGP: Signing::sign returns the signer output over exactly the bytes it is shown; Verifying is a function of bytes and signature; real-key semantics (verifies iff same key) and key-id reporting are functional correctness of the pgp crate: assumed / not covered',
                       'built_sig names the header produced by SignatureHeaderBuilder::build; its content (digest under SHA256, all signatures base64 under OPENPGP, the LAST signature under the legacy tag chosen by its key algorithm, no signature tag when none given) is proved in unit c08_sigbuild'],
         assumptions=['R21: the TryInto<Timestamp> conversion at the sign API boundary is dropped (C20 subject)',
-                     'NOT covered: signature_key_ids (base64 reader, pgp Signature::issuer, iterator adapters)'],
+                     'signature_key_ids (unit c10_keyids): for a header with an OPENPGP entry the result is Ok exactly when every armoured signature decodes, parses and names one issuer, and then lists those issuers in order; with legacy tags only, the single issuer of the signature consulted last. Base64 decoding, packet parsing and the issuer list are uninterpreted functions of the bytes (pgp crate), so that the id reported IS the id of the key that signed is pgp functional correctness: assumed'],
         explanation='sign_with_timestamp / clear_signatures (verbatim): lead, main header and payload are unchanged (frame, also on Err); the signature header becomes build(digest = hex(sha256(ser(header))), signatures = [signer output over exactly ser(header)]) resp. no signatures; lemma_history: by induction over ALL histories of {sign, clear, write+parse} header and payload stay byte-identical and the signature segment is the one of the last sign/clear; with C02 the package verifies iff the verifier accepts that signature over ser(header).',
     ),
     'C14': dict(
@@ -143,6 +143,7 @@ FIX_COMMITS = [
     '83d41a2 fix: collect the users and groups to create in ordered sets',
     'f08ac32 fix: a file directly under the root has the directory "/", not "//"',
     'e7d12cb fix: check the first character of each capability clause, not of the whole text',
+    '48abf43 fix: signature_key_ids checks the issuer count of each signature, not of the accumulated list',
 ]
 
 PROPS['C06'] = dict(
